@@ -490,6 +490,109 @@ def analyse(method, fname, body, all_src, log):
     return (ep, pat, flag, dom)
 
 
+def top_statements(blk):
+    """split the compact text of a block body into its top-level statements (if/else chains are one statement)"""
+    out = []
+    i, n = 0, len(blk)
+    while i < n:
+        j = i
+        if re.match(r'(?:if|for|while|switch)\(', blk[i:]) or blk.startswith('else', i) or blk.startswith('try{', i) or blk.startswith('do{', i):
+            # header (...) then a block or a single statement; an if keeps its else branches
+            while True:
+                m = re.match(r'(?:else ?)?(?:if|for|while|switch|catch)\(', blk[j:])
+                if m:
+                    j = match_close(blk, j + m.end() - 1, '(', ')') + 1
+                elif blk.startswith('else', j):
+                    j += 4
+                    if j < n and blk[j] == ' ':
+                        j += 1
+                elif blk.startswith('try', j) or blk.startswith('do', j):
+                    j += 3 if blk.startswith('try', j) else 2
+                if j < n and blk[j] == '{':
+                    j = match_close(blk, j) + 1
+                else:
+                    k = j
+                    d = 0
+                    while k < n and not (blk[k] == ';' and d == 0):
+                        if blk[k] == '"':
+                            k += 1
+                            while k < n and blk[k] != '"':
+                                k += 2 if blk[k] == '\\' else 1
+                        elif blk[k] in '([{':
+                            d += 1
+                        elif blk[k] in ')]}':
+                            d -= 1
+                        k += 1
+                    j = k + 1
+                if blk.startswith('else', j) or blk.startswith('catch(', j):
+                    continue
+                break
+        elif blk[i] == '{':
+            j = match_close(blk, i) + 1
+        else:
+            d = 0
+            while j < n and not (blk[j] == ';' and d == 0):
+                if blk[j] == '"':
+                    j += 1
+                    while j < n and blk[j] != '"':
+                        j += 2 if blk[j] == '\\' else 1
+                elif blk[j] in '([{':
+                    d += 1
+                elif blk[j] in ')]}':
+                    d -= 1
+                j += 1
+            j += 1
+        if j <= i:
+            return None
+        out.append(blk[i:j])
+        i = j
+    return out
+
+
+def always_returns(blk):
+    """does every path through the block body end in a return?  (last top-level statement is a return, or an if/else chain
+    with a final else all of whose branches always return)"""
+    try:
+        st = top_statements(blk)
+    except Exception:
+        return False
+    if not st:
+        return False
+    last = st[-1]
+    if re.fullmatch(r'return(?: [^;]*|\([^;]*)?;', last) or last == 'return;':
+        return True
+    if last.startswith('{') and last.endswith('}'):
+        return always_returns(last[1:-1])
+    if last.startswith('if('):
+        # branches of the chain
+        j = 0
+        branches = []
+        has_else = False
+        while j < len(last):
+            m = re.match(r'(?:else ?)?if\(', last[j:])
+            if m:
+                j = match_close(last, j + m.end() - 1, '(', ')') + 1
+            elif last.startswith('else', j):
+                j += 4
+                if j < len(last) and last[j] == ' ':
+                    j += 1
+                has_else = True
+            else:
+                return False
+            if j < len(last) and last[j] == '{':
+                e = match_close(last, j)
+                branches.append(last[j + 1:e])
+                j = e + 1
+            else:
+                e = last.find(';', j)
+                if e < 0:
+                    return False
+                branches.append(last[j:e + 1])
+                j = e + 1
+        return has_else and all(always_returns(b) for b in branches)
+    return False
+
+
 EXQ = {}
 
 
@@ -556,7 +659,7 @@ def analyse_execute(c, all_src, log):
             # command: a return that sits inside a nested if/else of the branch does not count
             s = match_close(qc, fm.end() - 1)
             blk = qc[fm.end():s] if s > 0 else ''
-            if blk.endswith('return;') and len(blk) > 7 and blk[-8] in ';}' and depth_at(blk, len(blk) - 7) == 0:
+            if always_returns(blk):
                 flag = 'accept_commands'
             else:
                 log.append('C13: ExecuteCheckFromQueue: the accept_commands branch does not end in an unconditional return')
